@@ -190,16 +190,27 @@ class Prop:
         nh = c.choice([1, 2, 2, 3])
         deferred = c.random() < 0.2
         handlers = []
+        # swarm: some runs put several handlers on the same *container* in terminal
+        # position and bias re-entrant self-removal onto container mutations (a
+        # notifier leaving the list while the container is notifying its listeners)
+        shared_container = c.random() < 0.2
+        if shared_container:
+            nh = max(nh, 2)
         for j in range(nh):
             expr = G.gen_expr(c)
-            if j > 0 and c.random() < 0.4:
+            if shared_container:
+                link = c.choice(["children", "children", "table", "group"])
+                expr = [[["t", link, c.random() < 0.7], ["items", None, True]]]
+                if j > 0:
+                    expr = handlers[0]["expr"]
+            elif j > 0 and c.random() < 0.4:
                 expr = handlers[0]["expr"]       # several handlers on the same observables
             handlers.append({"id": "h%d" % j, "root": 0 if c.random() < 0.8 else c.randrange(npool),
                              "expr": expr, "form": "obj" if c.random() < 0.4 else "text",
                              "owner": c.random() < 0.35,
                              "dispatch": "ui" if (deferred and c.random() < 0.6) else "same"})
         nops = c.choice([4, 8, 12, 18, 24, 30])
-        nested_rate = c.choice([0.0, 0.1, 0.3, 0.6])
+        nested_rate = c.choice([0.0, 0.1, 0.3, 0.6]) if not shared_container else 0.6
         gc_mode = c.choice(["explicit", "explicit", "explicit", "storm"])
         ops = []
         for _ in range(nops):
@@ -223,6 +234,8 @@ class Prop:
                 op = {"k": "probe", "o": r.randrange(npool + 2), "name": r.choice(["value", "label"])}
             else:
                 op = G.gen_graph_op(r, npool)
+                if shared_container and r.random() < 0.5:
+                    op["o"] = handlers[0]["root"]
             if op["k"] not in ("obs", "unobs", "poison_try", "gc", "thread", "deliver") \
                     and er.random() < nested_rate:
                 op["env"] = [{"at": er.choice(["h:any", "h:any", "h:h%d" % er.randrange(nh)]),
